@@ -181,3 +181,20 @@ Lemma ftotal_grouping_matters :
   ftotal (fzero true) [big; PrimFloat.one; PrimFloat.one]
   <> PrimFloat.add (ftotal (fzero true) [big]) (ftotal (fzero true) [PrimFloat.one; PrimFloat.one]).
 Proof. intros big H. apply (f_equal bits) in H. vm_compute in H. discriminate H. Qed.
+
+(* comparing floating-point results: IEEE comparison - a NaN is comparable with nothing, -0 = +0 *)
+Definition fcmp (a b : float) : option comparison :=
+  match PrimFloat.compare a b with FEq => Some Eq | FLt => Some Lt | FGt => Some Gt | FNotComparable => None end.
+Definition fscore_pcmp (a b : float) : option comparison := fcmp a b.
+Definition ferror_pcmp (a b : float) : option comparison := fcmp b a.
+(* collections of float results compare as their totals do - where those are comparable at all *)
+Definition fresults_pcmp (err : bool) (z : float) (a b : list float) : option comparison :=
+  (if err then ferror_pcmp else fscore_pcmp) (ftotal z a) (ftotal z b).
+Fixpoint flist_eqb (a b : list float) : bool :=
+  match a, b with [], [] => true | x :: a', y :: b' => PrimFloat.eqb x y && flist_eqb a' b' | _, _ => false end.
+Definition fresults_eqb (z : float) (a b : list float) : bool := flist_eqb a b && PrimFloat.eqb (ftotal z a) (ftotal z b).
+(* totals that are not comparable: +inf + -inf is NaN although no case is *)
+Lemma incomparable_total :
+  fresults_pcmp false (fzero true) [infinity; neg_infinity] [PrimFloat.one] = None /\
+  fresults_pcmp true (fzero true) [PrimFloat.one] [infinity; neg_infinity] = None.
+Proof. split; vm_compute; reflexivity. Qed.
